@@ -8,6 +8,7 @@ import RcVerif.Model.Handover
 import RcVerif.Model.AuthIp
 import RcVerif.Model.Elastic
 import RcVerif.Model.ConnIO
+import RcVerif.Model.PoolBan
 /-
   Line-protocol driver: one request per input line, one canonical answer per
   output line. Core-only, compiled as `rcdriver`.
@@ -454,6 +455,54 @@ def connioLine (rest : String) : String :=
       String.intercalate " | " outs
   | _ => "bad-op"
 
+/-! ### pool: `pool m=<maxActive> rep=<0|1> | g p ; l c ; d p ok ; R p ; C p ; S p b ; r ; w` -/
+def poolSummary (s : PoolBan.St) : String :=
+  let ps := s.pools.map (fun p => s!"{p.active.length} {p.order} {b01 p.flag} {p.banUnits} {b01 p.closed} {b01 p.isSlave}")
+  let opened := (List.range s.conns.length).filter (PoolBan.isOpen s.conns)
+  "[" ++ String.intercalate "|" ps ++ "] open=" ++ String.intercalate "," (opened.map toString)
+
+def poolLine (rest : String) : String :=
+  match rest.splitOn "|" with
+  | [hd, ops] =>
+    let toks := (hd.trimAscii.toString.splitOn " ").filter (· ≠ "")
+    let m := toks.findSome? (fun t => if t.startsWith "m=" then (t.drop 2).toString.toNat? else none)
+    let rep := toks.findSome? (fun t => if t.startsWith "rep=" then (t.drop 4).toString.toNat? else none)
+    match m, rep with
+    | some m, some rep =>
+      if m < 1 ∨ rep > 1 then "bad-op" else
+      let (_, outs, bad) := (splitOps ops).foldl (fun (acc : PoolBan.St × List String × Bool) op =>
+        let (s, outs, bad) := acc
+        let fin (s' : PoolBan.St) (res : String) := (s', outs ++ [res ++ " " ++ poolSummary s'], bad)
+        let showGet (r : Option Nat) := match r with | some c => s!"c{c}" | none => "nil"
+        let showReq (o : PoolBan.Out) := match o with
+          | .fwd c => s!"fwd c{c}"
+          | .err => "err " ++ hexOrDash Gen.strErrUnKnownProxyPoolConnError
+        match op with
+        | ["g", p] => match p.toNat? with
+          | some p => let (s', r) := PoolBan.get s p; fin s' (showGet r)
+          | none => (s, outs, true)
+        | ["l", c] => match c.toNat? with
+          | some c => fin (PoolBan.lose s c) "-"
+          | none => (s, outs, true)
+        | ["d", p, ok] => match p.toNat? with
+          | some p => fin (PoolBan.setDial s p (ok != "0")) "-"
+          | none => (s, outs, true)
+        | ["R", p] => match p.toNat? with
+          | some p => fin (PoolBan.release s p) "-"
+          | none => (s, outs, true)
+        | ["C", p] => match p.toNat? with
+          | some p => fin (PoolBan.close s p) "-"
+          | none => (s, outs, true)
+        | ["S", p, b] => match p.toNat? with
+          | some p => fin (PoolBan.setIsSlave s p (b == "1")) "-"
+          | none => (s, outs, true)
+        | ["r"] => let (s', o) := PoolBan.request s true; fin s' (showReq o)
+        | ["w"] => let (s', o) := PoolBan.request s false; fin s' (showReq o)
+        | _ => (s, outs, true)) (PoolBan.init m (rep == 1), [], false)
+      if bad then "bad-op" else String.intercalate " ; " outs
+    | _, _ => "bad-op"
+  | _ => "bad-op"
+
 def stepLine (line : String) : String :=
   let line := line.trimAscii.toString
   if line.startsWith "sim " then simLine (line.drop 4).toString else
@@ -465,6 +514,7 @@ def stepLine (line : String) : String :=
   if line.startsWith "llist " then llistLine (line.drop 6).toString else
   if line.startsWith "elastic " then elasticLine (line.drop 8).toString else
   if line.startsWith "connio " then connioLine (line.drop 7).toString else
+  if line.startsWith "pool " then poolLine (line.drop 5).toString else
   match (line.trimAscii.toString.splitOn " ").filter (· ≠ "") with
   | ["monitor", p1, p2] => if Route.monitorCycle (p1 != "0") (p2 != "0") then "banned" else "clear"
   | ["hash", k] =>
